@@ -390,6 +390,11 @@ func (t *Transformer) ReverseTranslate(v reflect.Value) (reflect.Value, error) {
 		mangledfieldOffset := 0
 		unmangledLayerVals := make([]FieldValueTuple, len(t.mState[manglerNum]))
 		for srcFieldIdx, srcFieldstate := range t.mState[manglerNum] {
+			if srcFieldstate.in.Name == "" && len(srcFieldstate.out) == 0 {
+				// TranslateType skipped this (unexported) field: there is
+				// nothing to unmangle; the reassembly below skips it too.
+				continue
+			}
 			// slice down to just the mangled fields we're
 			// interested in for this unmangled field.
 			fvtuples := layerMangledVal[mangledfieldOffset : mangledfieldOffset+len(srcFieldstate.out)]
